@@ -299,6 +299,35 @@ class CFG:
             self._pdom = self._idom(self.n + 1, self.EXIT, pred, succ)
         return self._pdom
 
+    def pdom_returning(self):
+        """Immediate post-dominators over RETURNING executions only: blocks that cannot reach a `return`
+        (panics, aborts, infinite loops) are ignored."""
+        if getattr(self, "_pdomr", None) is None:
+            can = set()
+            st = [self.EXIT]
+            while st:
+                x = st.pop()
+                if x in can:
+                    continue
+                can.add(x)
+                st.extend(self.pred[x])
+            succ = [[y for y in self.succ[i] if y in can] if i in can else [] for i in range(self.n + 1)]
+            pred = [[y for y in self.pred[i] if y in can] if i in can else [] for i in range(self.n + 1)]
+            self._pdomr = self._idom(self.n + 1, self.EXIT, pred, succ)
+        return self._pdomr
+
+    def postdominates_returning(self, a, b):
+        ip = self.pdom_returning()
+        if b not in ip:
+            return False
+        x = b
+        while True:
+            if x == a:
+                return True
+            if ip[x] == x:
+                return False
+            x = ip[x]
+
     def dominates(self, a, b):
         """block a dominates block b"""
         idom = self.dom()
